@@ -189,11 +189,14 @@ def run(ctx):
         pr = Prov(b)
         key = fnkey(b)
         rate_l = b.arg_count   # last parameter
-        fm = [c for c in b.calls() if any(sb.crate == b.crate for sb in local_callee_bodies(F, c)) and len(c.args) >= 4 and "Option<u64>" in (b.local_ty(op_local(c.args[3])) if op_local(c.args[3]) is not None else "")]
+        from rules.c03 import weight_types
+        WT = weight_types(F)
+        is_wt = lambda c: len(c.args) >= 4 and op_local(c.args[3]) is not None and b.local_ty(op_local(c.args[3])) in WT
+        fm = [c for c in b.calls() if any(sb.crate == b.crate for sb in local_callee_bodies(F, c)) and is_wt(c)]
         ctx.check(len(fm) == 1, "R12.2", key + "#single-weighted-format-call", loc(b), "expected one call passing the multiplicity, found %d" % len(fm))
         for c in fm:
             o = pr.operand(c.args[3])
-            some = any(x[0] == "agg" and x[2] == "Some" for x in o)
+            some = any(x[0] == "agg" and x[2] == WT[b.local_ty(op_local(c.args[3]))] for x in o)
             ncalls = [x[1] for x in o if x[0] == "call"]
             okn = False
             for nb in ncalls:
@@ -303,7 +306,7 @@ def run(ctx):
     n5 = 0
     for b in impls:
         for c in [c for c in b.calls() if any(sb.crate == b.crate for sb in local_callee_bodies(F, c)) and len(c.args) >= 4 and
-                  "Option<u64>" in (b.local_ty(op_local(c.args[3])) if op_local(c.args[3]) is not None else "")]:
+                  op_local(c.args[3]) is not None and b.local_ty(op_local(c.args[3])) in weight_types(F)]:
             stats = {"calls": 0, "ops": 0, "casts": 0}
             visited = set()
             bad = slice_check(b, [op_local(c.args[3])], 3, visited, stats)
